@@ -399,9 +399,10 @@ theorem fresh_ok (d : Dialect) (hd : d.WF) : (freshChunk d).OK d := by
 theorem length_render_fresh (d : Dialect) (hd : d.WF) : ((freshChunk d).render d).length = hs d := by
   rw [length_render d _ hd.2.2.2.1]; simp [freshChunk]
 
-theorem insertChunk_render (d : Dialect) (hd : d.WF) (name : Bytes) (hname : name.length = 4) (cs : List Chunk)
+theorem insertAt_render (d : Dialect) (hd : d.WF) (name : Bytes) (hname : name.length = 4) (cs : List Chunk)
     (hok : ∀ c ∈ cs, c.OK d) (hroot : 4 + ((renderChunks d cs).length + hs d) < 256 ^ d.sizeW) :
-    insertChunk d (renderFile d name cs) (name.length + (renderChunks d cs).length) (recsOf d (hs d + 4) cs) =
+    insertAt d (renderFile d name cs) (name.length + (renderChunks d cs).length) (renderFile d name cs).length
+        (recsOf d (hs d + 4) cs) =
       .ok (renderFile d name (cs ++ [freshChunk d]), name.length + (renderChunks d (cs ++ [freshChunk d])).length,
         (if cs = [] then recsOf d (hs d + 4) [freshChunk d] else recsOf d (hs d + 4) cs) ++
           [recOf (hs d + 4 + (renderChunks d cs).length) (freshChunk d)]) := by
@@ -409,9 +410,9 @@ theorem insertChunk_render (d : Dialect) (hd : d.WF) (name : Bytes) (hname : nam
   have hnext : hs d + (name.length + (renderChunks d cs).length) = (renderFile d name cs).length := hlen.symm
   have hnew : (renderChunks d (cs ++ [freshChunk d])).length = (renderChunks d cs).length + hs d := by
     simp [renderChunks_append, renderChunks, length_render_fresh d hd]
-  unfold insertChunk
+  unfold insertAt
   simp only []
-  rw [actual_root d hd, hnext, List.take_length, List.drop_length]
+  rw [List.take_length, List.drop_length]
   have hf1 : renderFile d name cs ++ (d.newId ++ enc d 0) ++ [] = renderFile d name cs ++ (freshChunk d).render d ++ [] := by
     simp [Chunk.render, freshChunk]
   rw [hf1, parseAt_chunk d _ [] _ (fresh_ok d hd).1]
@@ -440,6 +441,61 @@ theorem insertChunk_render (d : Dialect) (hd : d.WF) (name : Bytes) (hname : nam
 
 
 /-! ### save and delete on rendered files -/
+
+
+theorem recsOf_getLast (d : Dialect) (o : Nat) (cs : List Chunk) (hok : ∀ c ∈ cs, c.OK d) :
+    ∀ last, (recsOf d o cs).getLast? = some last → last.offset + last.size d = o + (renderChunks d cs).length := by
+  induction cs generalizing o with
+  | nil => intro last h; simp [recsOf] at h
+  | cons c r ih =>
+    intro last h
+    have hc := hok c (by simp)
+    have hl := length_render d c hc.1.1
+    cases r with
+    | nil =>
+      simp [recsOf] at h
+      subst h
+      simp [recOf, Rec.size, renderChunks, hl, hc.2]
+    | cons c2 r2 =>
+      have : (recsOf d o (c :: c2 :: r2)).getLast? = (recsOf d (o + (c.render d).length) (c2 :: r2)).getLast? := by
+        simp [recsOf, List.getLast?_cons_cons]
+      rw [this] at h
+      have := ih (o + (c.render d).length) (fun x hx => hok x (by simp [hx])) last h
+      rw [this]; simp [renderChunks]; omega
+
+theorem insertPrep_render (d : Dialect) (hd : d.WF) (name : Bytes) (hname : name.length = 4) (cs : List Chunk)
+    (hok : ∀ c ∈ cs, c.OK d) :
+    insertPrep d (renderFile d name cs) (name.length + (renderChunks d cs).length) (recsOf d (hs d + 4) cs) =
+      .ok (renderFile d name cs, name.length + (renderChunks d cs).length, (renderFile d name cs).length,
+        recsOf d (hs d + 4) cs) := by
+  have hlen := length_renderFile d hd name cs
+  unfold insertPrep
+  simp only []
+  rw [actual_root d hd]
+  have hw : (if (recsOf d (hs d + 4) cs).isEmpty then walk d (renderFile d name cs) (name.length + (renderChunks d cs).length)
+      else .ok (recsOf d (hs d + 4) cs)) = .ok (recsOf d (hs d + 4) cs) := by
+    split
+    · rw [walk_render d hd name hname cs hok]
+    · rfl
+  rw [hw]
+  simp only []
+  cases hl : (recsOf d (hs d + 4) cs).getLast? with
+  | none => simp only []; rw [hlen]
+  | some last =>
+    simp only []
+    have := recsOf_getLast d (hs d + 4) cs hok last hl
+    rw [if_neg (by omega), hlen]
+
+theorem insertChunk_render (d : Dialect) (hd : d.WF) (name : Bytes) (hname : name.length = 4) (cs : List Chunk)
+    (hok : ∀ c ∈ cs, c.OK d) (hroot : 4 + ((renderChunks d cs).length + hs d) < 256 ^ d.sizeW) :
+    insertChunk d (renderFile d name cs) (name.length + (renderChunks d cs).length) (recsOf d (hs d + 4) cs) =
+      .ok (renderFile d name (cs ++ [freshChunk d]), name.length + (renderChunks d (cs ++ [freshChunk d])).length,
+        (if cs = [] then recsOf d (hs d + 4) [freshChunk d] else recsOf d (hs d + 4) cs) ++
+          [recOf (hs d + 4 + (renderChunks d cs).length) (freshChunk d)]) := by
+  unfold insertChunk
+  rw [insertPrep_render d hd name hname cs hok]
+  simp only []
+  exact insertAt_render d hd name hname cs hok hroot
 
 theorem fresh_data (d : Dialect) : (freshChunk d).data = [] := rfl
 
